@@ -40,11 +40,11 @@ StepEv(e) ==
          g0 == Len(e.image) = e.lines * e.tracks * 8
          g1 == e.cells = cells                    \* data[line][track] flattened by the harness in row-major order
          g2 == e.back = e.image
-         g3 == e.pdta = e.image /\ e.reloaded = e.image IN
+         g3 == e.pdta = e.image /\ e.reloaded = LoadedImage(e.image, e.vers) IN
      /\ Check(g0, "image-size", e.lines * e.tracks * 8, Len(e.image))
      /\ Check(g1, "row-major-cells", cells, e.cells)
      /\ Check(g2, "raw-data-identity", e.image, e.back)
-     /\ Check(g3, "file-identity", e.image, <<e.pdta, e.reloaded>>)
+     /\ Check(g3, "file-identity", <<e.vers, LoadedImage(e.image, e.vers)>>, <<e.pdta, e.reloaded>>)
      /\ ok' = (ok /\ g0 /\ g1 /\ g2 /\ g3))
   [] e.op = "packed" ->       \* a word that exists only in the file (SMII, SFGS): fields -> file word -> fields
     (LET fs == FieldsOfWord(e.word)
